@@ -403,6 +403,94 @@ Example c05_rung_waits_example :
               map cur_ids (m_brackets (s_mgr st)) = [[0]]%Z).
 Proof. vm_compute. repeat split; repeat eexists. Qed.
 
+(* ---- the primary-bracket pointer ----------------------------------------------------------------
+   In every reachable state (any interleaving of results over any number of open brackets): the pointer
+   is a valid bracket id, the primary bracket is not complete, every bracket below the pointer is
+   complete (no free slot, nothing pending), every incomplete bracket and every pending job lies at or
+   above the pointer (what mgr.on_result asserts) — so nothing that next_job has to serve is skipped:
+   next_job scans from the pointer upwards (c05_never_blocks). *)
+Theorem c05_primary_pointer :
+  forall rss md ops st, check_bracket_rungs rss = true -> run_from rss md ops = Ok st ->
+  let m := s_mgr st in
+  (m_primary m < length (m_brackets m))%nat /\
+  (forall b, nth_error (m_brackets m) (m_primary m) = Some b -> is_bracket_complete b = false) /\
+  (forall j b, (j < m_primary m)%nat -> nth_error (m_brackets m) j = Some b ->
+     is_bracket_complete b = true /\ has_free_slot b = false) /\
+  (forall j b, nth_error (m_brackets m) j = Some b -> is_bracket_complete b = false -> (m_primary m <= j)%nat) /\
+  (forall t bid s, lookup t (s_pending st) = Some (bid, s) ->
+     (m_primary m <= bid < length (m_brackets m))%nat).
+Proof. exact primary_pointer. Qed.
+Print Assumptions c05_primary_pointer.
+
+Theorem c05_dehb_primary_pointer :
+  forall first md nb ops m0 st, dehb_mgr_init first md nb = Ok m0 -> drun_from first md nb ops = Ok st ->
+  let m := d_mgr st in
+  (m_primary m < length (m_brackets m))%nat /\
+  (forall b, nth_error (m_brackets m) (m_primary m) = Some b -> is_bracket_complete b = false) /\
+  (forall j b, (j < m_primary m)%nat -> nth_error (m_brackets m) j = Some b ->
+     is_bracket_complete b = true /\ has_free_slot b = false) /\
+  (forall bid s, In (bid, s) (d_out st) -> (m_primary m <= bid < length (m_brackets m))%nat).
+Proof. exact dehb_primary_pointer. Qed.
+Print Assumptions c05_dehb_primary_pointer.
+
+Example c05_primary_pointer_example :
+  (* three brackets open at once; bracket 1 completes first, the pointer stays at the incomplete bracket 0;
+     when bracket 0 completes it jumps over the complete bracket 1 to bracket 2 *)
+  let rss : list rung_system := [[(2%nat, 1%Z); (1%nat, 3%Z)]; [(1%nat, 3%Z)]] in
+  let ops := [OSuggest true; OSuggest true; OSuggest true; OSuggest true; OSuggest true] in
+  (exists st, run_from rss Min ops = Ok st /\ length (m_brackets (s_mgr st)) = 3%nat /\ m_primary (s_mgr st) = 0%nat) /\
+  (exists st, run_from rss Min (ops ++ [OReport 2 0 (Val 1); OReport 0 0 (Val 1); OReport 1 0 (Val 2)]) = Ok st /\
+              m_primary (s_mgr st) = 0%nat /\ map is_bracket_complete (m_brackets (s_mgr st)) = [false; true; false]) /\
+  (exists st, run_from rss Min (ops ++ [OReport 2 0 (Val 1); OReport 0 0 (Val 1); OReport 1 0 (Val 2);
+                                        OSuggest true; OReport 0 0 (Val 1)]) = Ok st /\
+              m_primary (s_mgr st) = 2%nat /\ map is_bracket_complete (m_brackets (s_mgr st)) = [true; true; false]).
+Proof. vm_compute. repeat split; repeat eexists. Qed.
+
+(* ---- _trial_to_config and the config carried by a suggestion --------------------------------------
+   [crun_from hp has_attr rss md ops]: the scheduler with its config table; CSuggest nc = a request for
+   work where the searcher would deliver config nc (None: no config); has_attr = max_resource_attr given.
+   The hyperparameter part of a config is an arbitrary type [hp]. *)
+
+(* never a KeyError on _trial_to_config (nor any other exception): exactly the trials started so far
+   have a stored config, and only those are ever resumed *)
+Theorem c05_config_no_error :
+  forall (hp : Type) (has_attr : bool) rss md (ops : list (cop hp)), check_bracket_rungs rss = true ->
+    exists cs, crun_from hp has_attr rss md ops = Ok cs /\
+      forall t, (0 <= t < s_ntrials (fst cs))%Z -> exists c, clookup hp t (snd cs) = Some c.
+Proof. exact config_no_error. Qed.
+Print Assumptions c05_config_no_error.
+
+(* the config of every suggestion: with max_resource_attr it tells the script to run to the level of the
+   slot the trial now occupies; a new trial's config is the searcher's, stored as suggested; a resumed
+   trial's config is the one stored for it (same hyperparameters), only the resource entry is replaced,
+   and the table is unchanged *)
+Theorem c05_suggestion_config :
+  forall (hp : Type) (has_attr : bool) cs nc cs' sg c,
+    suggest_cfg hp has_attr cs nc = Ok (cs', Some (sg, c)) ->
+    exists t bid s, lookup t (s_pending (fst cs')) = Some (bid, s) /\ trial_of sg = Some t /\
+      (has_attr = true -> snd c = Some (level s)) /\
+      match sg with
+      | SStart _ => exists c0, nc = Some c0 /\ c = set_resource hp has_attr c0 (level s) /\ clookup hp t (snd cs') = Some c
+      | SResume _ => exists c0, clookup hp t (snd cs) = Some c0 /\ c = set_resource hp has_attr c0 (level s) /\
+                      fst c = fst c0 /\ snd cs' = snd cs
+      | SNone => False
+      end.
+Proof. exact suggestion_config. Qed.
+Print Assumptions c05_suggestion_config.
+
+Example c05_config_example :
+  (* hyperparameter part = a number; trial 0 (hp 10) is started at level 1 and later resumed for level 3:
+     same hyperparameters, resource entry 3 *)
+  let rss : list rung_system := [[(2%nat, 1%Z); (1%nat, 3%Z)]] in
+  let ops := [CSuggest Z (Some (10%Z, Some 9%Z)); CSuggest Z (Some (20%Z, Some 9%Z));
+              COther Z (OReport 0 0 (Val 1)); COther Z (OReport 1 0 (Val 2))] in
+  match crun_from Z true rss Min ops with
+  | Ok cs => clookup Z 0 (snd cs) = Some (10%Z, Some 1%Z) /\
+             (exists cs', suggest_cfg Z true cs None = Ok (cs', Some (SResume 0, (10%Z, Some 3%Z))))
+  | Error _ => False
+  end.
+Proof. vm_compute. split; [reflexivity|eexists; reflexivity]. Qed.
+
 (* non-vacuity: a rung system accepted by the constructor; three workers, one job fails, the
    first rung completes with a tie, the best two (stable order) are promoted, a second bracket
    was opened while the first one waited. *)
